@@ -586,6 +586,16 @@ Lemma demo_answers : forall mono,
   [VInt 10800; VInt 10800; VTup [VInt (-18000)]; VInt (-18000); VInt 3600; VInt 3600; VInt 0].
 Proof. intros [|]; vm_compute; reflexivity. Qed.
 
+(* the direction of a conversion matters in a zone with a transition (+01:13 before
+   2000-01-01T00:00:00Z, +03:14 after): the instant 00:30 is after it, the wall-clock time 00:30 is
+   before it, the wall-clock time 02:00 does not occur *)
+Lemma demo_direction : forall mono,
+  answers (xoracle demo_world) mono (init_state (xinit demo_world))
+    [SetTZ B"/tmp/step"; Convert false (2000, 1, 1800); Convert true (2000, 1, 1800); Convert true (2000, 1, 7200);
+     Convert true (2000, 1, 11640); Convert false (1999, 365, 86399)] =
+  [VInt 11640; VTup [VInt 4380]; VTup []; VTup [VInt 11640]; VInt 4380].
+Proof. intros [|]; vm_compute; reflexivity. Qed.
+
 Lemma xoracle_hash_injective : forall x, hash_injective (xoracle x).
 Proof.
   intros x a. unfold hash_injective. cbn. induction a as [|c r IH]; intros [|c' r'] H; cbn in H; try discriminate; [reflexivity|].
